@@ -37,6 +37,7 @@
 #include <sys/mman.h>
 #include <sys/wait.h>
 #include <omp.h>
+#include <csetjmp>
 
 using vj::Value;
 typedef long long ll;
@@ -302,6 +303,7 @@ struct Outcome
   char target = 'A';          // 'A', 'B', 'v', 'S' (A and B), 'x' scalar
   bool refused = false;       // the library returned a null object / nothing
   int status = 0;             // error status returned by the library (0 = success)
+  int crashed = 0;            // signal number of a fault inside the call
   std::string exception;      // text of a caught exception
   long errors = 0;            // error messages printed during the call
   std::string errtext;
@@ -982,15 +984,51 @@ struct StepResult
   bool ok = true;        // primary route agreed (the registers can be used further)
 };
 
-// runs fn on g, containing exceptions; fills out
+// in-process recovery from a fault inside a library call (the fork of runContained remains the fallback
+// when the fault has corrupted the heap)
+static sigjmp_buf g_jmp;
+static volatile sig_atomic_t g_armed = 0;
+static volatile sig_atomic_t g_sig = 0;
+static void faultHandler(int sig)
+{
+  if (g_armed)
+  {
+    g_armed = 0;
+    g_sig = sig;
+    siglongjmp(g_jmp, 1);
+  }
+  signal(sig, SIG_DFL);
+  raise(sig);
+}
+static void installFaultHandler()
+{
+  struct sigaction sa;
+  memset(&sa, 0, sizeof sa);
+  sa.sa_handler = faultHandler;
+  sa.sa_flags = SA_NODEFER;
+  sigaction(SIGSEGV, &sa, nullptr);
+  sigaction(SIGBUS, &sa, nullptr);
+  sigaction(SIGFPE, &sa, nullptr);
+  sigaction(SIGABRT, &sa, nullptr);
+}
+
+// runs fn on g, containing exceptions and faults; fills out
 static void runRoute(const Route& rt, Regs& g, Outcome& out)
 {
   out.route = rt.name;
   long e0 = g_errcount;
   g_lasterr.clear();
+  if (sigsetjmp(g_jmp, 1) != 0)
+  {
+    out.crashed = (int)g_sig;
+    out.errors = g_errcount - e0;
+    return;
+  }
+  g_armed = 1;
   try
   {
     rt.fn(g, out);
+    g_armed = 0;
   }
   catch (const AException& e) { out.exception = std::string("AException: ") + e.what(); }
   catch (const std::exception& e) { out.exception = std::string("std::exception: ") + e.what(); }
@@ -998,6 +1036,7 @@ static void runRoute(const Route& rt, Regs& g, Outcome& out)
   catch (const std::string& s) { out.exception = std::string("throw: ") + s; }
   catch (const ExitRequested&) { out.exception = "messageAbort"; }
   catch (...) { out.exception = "unknown exception"; }
+  g_armed = 0;
   out.errors = g_errcount - e0;
   out.errtext = g_lasterr;
 }
@@ -1145,11 +1184,31 @@ static Regs* step(int nodeIdx, const Node& n, const Node& pn, int p, const Regs&
     stat(std::string("op:") + o.op + ":" + PROFNAME[p]);
     std::string diff;
     Value observed;
+    if (out.crashed)
+    {
+      stat("disagreements");
+      stat("crashes_recovered");
+      report("crash", n, &pn, p, routes[k].name, "crash", regsExpected(n), Value(out.crashed), "fault (signal) inside the library call");
+      // the clone is abandoned (it may be inconsistent)
+      if (k == 0) return nullptr;
+      continue;
+    }
     if (out.exception.empty() && !out.refused)
     {
+      // reading back is also protected: a call may leave an object that faults when it is read
+      if (sigsetjmp(g_jmp, 1) != 0)
+      {
+        stat("disagreements");
+        stat("crashes_recovered");
+        report("crash", n, &pn, p, routes[k].name, "crash", regsExpected(n), Value((int)g_sig), "fault (signal) when reading the result back");
+        if (k == 0) return nullptr;
+        continue;
+      }
+      g_armed = 1;
       try { diff = compareRegs(*g, n, exact); }
       catch (...) { diff = "unreadable"; }
       if (!diff.empty()) observed = regsObserved(*g);
+      g_armed = 0;
     }
     if (out.exception.empty() && !out.refused && diff.empty() && out.status != 0)
     {
@@ -1256,22 +1315,23 @@ static void inflate(int nodeIdx, const Node& n, const Node& pn)
         stat("inflated_executed");
         stat(std::string("infl:") + o.op + ":" + PROFNAME[p]);
         std::string diff;
-        if (out.exception.empty() && !out.refused)
+        if (out.exception.empty() && !out.refused && !out.crashed)
         {
           try { diff = compareRegs(*g, big, !n.ap); } catch (...) { diff = "unreadable"; }
         }
-        if (!out.exception.empty() || out.refused || !diff.empty())
+        if (out.crashed) { diff = "crash"; }
+        if (out.crashed || !out.exception.empty() || out.refused || !diff.empty())
         {
           stat("disagreements");
           Value ob = Value::object();
           ob["register"] = Value(diff);
           ob["note"] = Value(out.exception);
           std::string variant = std::string(ones ? "kron J_" : "kron I_") + std::to_string(N) + " threads=" + std::to_string(g_threads);
-          report(!out.exception.empty() ? "exception" : (out.refused ? "refused" : "mismatch"), n, &pn, p, routes[k].name,
+          report(out.crashed ? "crash" : !out.exception.empty() ? "exception" : (out.refused ? "refused" : "mismatch"), n, &pn, p, routes[k].name,
                  diff.empty() ? std::string(1, target) : diff, regsExpected(n), ob,
                  "inflated operands disagree with n^p (small result (x) K)", variant);
         }
-        delete g;
+        if (!out.crashed) delete g;
       }
     }
   }
@@ -1341,6 +1401,7 @@ static void setupLibrary(int threads)
   redefine_error(errHook);
   redefine_message(msgHook);
   redefine_exit(exitHook);
+  installFaultHandler();
   setUpdateNonZeroValue(2);   // the cs storage throws when asked to create a non-zero term in place
   g_threads = threads;
   if (threads > 0) setMultiThread(threads);
